@@ -398,7 +398,12 @@ struct Emitter {
         o += ",\"sig\":\"" + jesc(tyStr(callee->getType())) + "\"";
         if (const CXXMethodDecl *md = dyn_cast<CXXMethodDecl>(callee)) {
           o += ",\"rec\":\"" + jesc(recQName(md->getParent())) + "\"";
-          if (md->isVirtual()) o += ",\"virt\":1";
+          // Base::f(args) names one function: a qualified member call is not dispatched dynamically
+          bool qualified = false;
+          if (const MemberExpr *me = dyn_cast<MemberExpr>(c->getCallee()->IgnoreParenImpCasts()))
+            qualified = me->hasQualifier();
+          if (md->isVirtual() && !qualified) o += ",\"virt\":1";
+          if (qualified) o += ",\"qualified\":1";
           if (md->isStatic()) o += ",\"smeth\":1";
         }
         if (callee->isExternC()) o += ",\"externc\":1";
